@@ -304,8 +304,8 @@ func c11RunPlan(t c11TB, ses *c11Session, plan []c11Step, rs *c11RunStats) {
 
 	// Both directions end in the state the reference predicts.
 	for _, sd := range []*c11Side{ses.a, ses.b} {
-		if sd.m.sendCipher.secretKey != sd.ref.key ||
-			sd.m.sendCipher.salt != sd.ref.ck ||
+		if c11B32(sd.m.sendCipher.secretKey) != sd.ref.key ||
+			c11B32(sd.m.sendCipher.salt) != sd.ref.ck ||
 			sd.m.sendCipher.nonce != sd.ref.n {
 
 			t.Fatalf("%s send cipher state diverged from the reference "+
@@ -313,8 +313,8 @@ func c11RunPlan(t c11TB, ses *c11Session, plan []c11Step, rs *c11RunStats) {
 				sd.m.sendCipher.nonce, sd.ref.n)
 		}
 	}
-	if ses.a.m.recvCipher.secretKey != ses.b.ref.key ||
-		ses.b.m.recvCipher.secretKey != ses.a.ref.key {
+	if c11B32(ses.a.m.recvCipher.secretKey) != ses.b.ref.key ||
+		c11B32(ses.b.m.recvCipher.secretKey) != ses.a.ref.key {
 
 		t.Fatalf("receive keys diverged from the peer's send keys")
 	}
